@@ -427,3 +427,8 @@ package keeper
 //@ loop #1
 //@   invariant true
 //@   step[C18.sapck.reverse,C07.sapck.reverse] defined(res_ToConsAddr_0) && get(ctx, "operator", opRevKey(chainID, res_ToConsAddr_0)) == opAccAddr
+
+// C04 (a slash is executed once per EVENT): the id under which a dogfood slash is recorded names both the kind of
+// infraction and its height, so that two different infractions at one height are two events.
+//@ func GetSlashIDForDogfood
+//@   ensures[C04.gsid.both] r0 == joinsep("_", hexu64(wrapu(infraction, 18446744073709551616)), hexu64(wrapu(infractionHeight, 18446744073709551616)))
